@@ -26,6 +26,11 @@ CORPUS = [
      "dup 0", "dup 1", "dup 2", "dup 3", "dup 4", "flush"],
     # the same for a VOLATILE late joiner: GAP(1..3) duplicated after 4, 5 were delivered
     ["init be vol 8", "write x01", "write x02", "write x03", "match", "write x04", "write x05", "dup 0", "flush", "dup 1", "dup 2"],
+    # forged HEARTBEATs reaching a best-effort reader (the writer never sends one): first below / above what was seen, copies of
+    # delivered DATA afterwards must be refused (C02_forged_hb_no_duplicate)
+    ["init be tl 8", "match", "write x01", "write x02", "dup 0", "dup 1", "deliver 0", "deliver 0", "forgehb 1 50 1000 f l", "flush",
+     "forgehb 0 0 1001 F l", "write x03", "dup 0", "flush"],
+    ["init be vol 8", "match", "write p20.3", "write x0102", "deliver 1", "forgehb 5 9 7 f l", "flush", "forgehb 1 2 8 F L", "write x03", "flush"],
     # D42 exemplar (loss, not a C02 violation): the sample after a gap is never sent to a best-effort reader
     ["init be tl 8", "write x01", "write x02", "write x03", "remove 2", "match", "tick 1", "flush"],
 ]
@@ -46,6 +51,16 @@ def run(ctx):
         cases.append(gen_system_case(r, cfg, rel=False, rematch=(k % 4 == 0)))
     for k in range(n // 3):
         cases.append(gen_gap_replay_case(r, cfg, rel=False))
+    # the same system cases with forged HEARTBEATs spliced in (any first / last / flags, counts rising or stale)
+    for k in range(n // 2):
+        c = gen_system_case(r, cfg, rel=False, rematch=(k % 4 == 0))
+        lines = list(c.lines)
+        cnt = 0
+        for _ in range(r.range(1, 4)):
+            pos = r.range(2, len(lines))
+            cnt = cnt + r.range(1, 500) if r.range(0, 4) else r.range(0, 3)
+            lines.insert(pos, f"forgehb {r.range(0, 12)} {r.range(0, 40)} {cnt} {r.choice(['F', 'f'])} {r.choice(['L', 'l'])}")
+        cases.append(Case(lines, {"rel": False}))
     count_ops(ctx, cases)
     ctx.differential(ENGINE, cases, nontrivial=nontrivial_system, oracle=oracle)
 
